@@ -1091,6 +1091,23 @@ class Unit:
                 edits.append((cb + 1, cb + 1, '\n' + '\n'.join(h['lines']), None))
                 continue
             occ = [mm.start() for mm in re.finditer(re.escape(h['anchor']), body) if sn.mask[mm.start()] == CODE]
+            if not occ and not h['nth']:
+                # the anchored statement was edited slightly: take the one line that is still nearly the same text
+                import difflib
+                cands = []
+                pos_ = 0
+                for ln_ in body.split('\n'):
+                    st_ = ln_.strip()
+                    if st_ and sn.mask[pos_ + (len(ln_) - len(ln_.lstrip()))] == CODE:
+                        a_ = h['anchor']
+                        r_ = max(difflib.SequenceMatcher(None, a_, st_).ratio(), difflib.SequenceMatcher(None, a_, st_[:len(a_) + 4]).ratio())
+                        cands.append((r_, pos_ + (len(ln_) - len(ln_.lstrip()))))
+                    pos_ += len(ln_) + 1
+                cands.sort(reverse=True)
+                if cands and cands[0][0] >= 0.8 and (len(cands) == 1 or cands[1][0] <= cands[0][0] - 0.08):
+                    occ = [cands[0][1]]
+                    log.append(dict(rule='fuzzy-anchor', before=h['anchor'], after=norm_ws(body[occ[0]:body.find('\n', occ[0])])[:160],
+                                    reason='the anchored statement differs slightly from the text the hint was written against; similarity %.2f' % cands[0][0]))
             if h['nth']:
                 if len(occ) < h['nth']:
                     self.lost_anchors.append('%s: anchor %r occurrence %d not found' % (path, h['anchor'], h['nth']))
